@@ -11,11 +11,9 @@ Section Spec.
   Notation meta := (meta root).
   Notation proc := proc.
 
-  Definition is_name (c : comp) : bool := match c with CName _ => true | CTmp _ _ _ => false end.
-  Definition visible (p : path) : bool := forallb is_name p.
-
-  (* keys are hexadecimal digests: in particular no key is another key followed by ".meta" *)
-  Definition good_key (k : bytes) : bool := all_hex k && negb (Nat.eqb (List.length k) 0).
+  Notation visible := LocalProgs.visible.
+  Notation good_key := LocalProgs.good_key.
+  Notation good_op := (LocalProgs.good_op data).
 
   (* ---- what every reader may rely on, at every instant ---- *)
   Definition BlobInv (fs : fsys) : Prop :=
@@ -27,16 +25,6 @@ Section Spec.
   Definition LinkInv (fs : fsys) : Prop :=
     forall loc t, visible loc = true -> fs loc = Some (NLink t) -> exists k, good_key k = true /\ t = blob k.
 
-  (* a process only names good keys and visible locations under the data directory *)
-  Definition good_op (o : opcall) : Prop :=
-    match o with
-    | OpInit => True
-    | OpStore k | OpHas k | OpFetch k => good_key k = true
-    | OpSync items => forall loc k, In (loc, k) items ->
-                        good_key k = true /\ visible loc = true /\ exists segs, segs <> [] /\ loc = data ++ segs
-    | OpFetchPath loc => visible loc = true
-    end.
-
   (* results that a reader may return for key k: absent, or exactly what every writer of k writes *)
   Definition good_result (r : result) : Prop :=
     match r with
@@ -44,10 +32,51 @@ Section Spec.
     | _ => True
     end.
 
+  (* prefix order on names; the data directory and the blob directory must not contain one another (otherwise a kept path
+     could denote a blob file, or a key a directory of the data tree) *)
+  Fixpoint is_prefix (a b : path) : bool :=
+    match a, b with
+    | [], _ => true
+    | x :: r, y :: s => comp_eqb x y && is_prefix r s
+    | _ :: _, [] => false
+    end.
+  Definition separated : Prop := is_prefix data (blobs_dir root) = false /\ is_prefix (blobs_dir root) data = false.
+
   Definition init_ok (s : sys) : Prop :=
+    separated /\
     BlobInv (s_fs s) /\ LinkInv (s_fs s) /\
     (forall p, (exists c, In c p /\ is_name c = false) -> s_fs s p = None) /\          (* no temporary exists yet *)
     visible root = true /\ visible data = true /\
     NoDup (map p_pid (s_procs s)) /\
     (forall p, In p (s_procs s) -> p_pc p = PIdle /\ p_cnt p = 0 /\ p_outs p = [] /\ Forall good_op (p_todo p)).
+
+  (* ---- vocabulary of the theorems ---- *)
+  Definition meta_present (fs : fsys) (k : bytes) : Prop := fs (meta k) = Some (NFile (menc k)).
+  Definition complete (fs : fsys) (k : bytes) : Prop := fs (meta k) = Some (NFile (menc k)) /\ fs (blob k) = Some (NFile (enc k)).
+
+  (* reachability from an arbitrary state (for statements about "later") *)
+  Notation reach := (reachable root data enc menc).
+
+  Definition reader_pc (c : pc) : bool :=
+    match c with
+    | PHas _ | PF_stat_blob _ | PF_stat_meta _ | PF_read_meta _ | PF_read_blob _ _ | PP_stat_dir _ | PP_stat_loc _ | PP_realpath _ => true
+    | _ => false
+    end.
+
+  (* the process is about to swap its private link to blob k into location loc *)
+  Definition swapping (p : proc) (loc : path) (k : bytes) : Prop := exists items, p_pc p = PSP_replace loc k items.
+
+  (* discipline of dds evaluations: a path is only pointed at a key whose blob this process stored earlier, or that was
+     complete when the process started (has_blob answered true) *)
+  Fixpoint todo_ok (have : bytes -> Prop) (todo : list opcall) : Prop :=
+    match todo with
+    | [] => True
+    | OpStore k :: r => todo_ok (fun k' => k' = k \/ have k') r
+    | OpSync items :: r => (forall loc k, In (loc, k) items -> have k) /\ todo_ok have r
+    | _ :: r => todo_ok have r
+    end.
+  Definition LinkLive (fs : fsys) : Prop :=
+    forall loc t, visible loc = true -> fs loc = Some (NLink t) -> exists k, good_key k = true /\ t = blob k /\ complete fs k.
+  Definition disciplined (s : sys) : Prop :=
+    forall p, In p (s_procs s) -> todo_ok (fun k => complete (s_fs s) k) (p_todo p).
 End Spec.
